@@ -6,6 +6,7 @@ import (
 	"fmt"
 	"strings"
 	"sync"
+	"sync/atomic"
 
 	"github.com/creachadair/jrpc2"
 
@@ -299,6 +300,86 @@ func c03infoExec(c *vt.Ctx, conc int) {
 	c.Eval(1)
 }
 
+// c03growingNamer is an assigner whose method list grows when the harness says so: the
+// effect of a notification ("register this method") that a later rpc.serverInfo must see.
+type c03growingNamer struct {
+	*peer.Handlers
+	grown *atomic.Bool
+}
+
+func (n c03growingNamer) Names() []string {
+	names := n.Handlers.Names()
+	if n.grown.Load() {
+		names = append(names, "zz.registered")
+	}
+	return names
+}
+
+// c03freshExec: rpc.serverInfo arrives while a notification is still running; the effect
+// the notification has before it returns must be in the answer (the built-in is a request
+// like any other: it starts - looks at the server and the assigner - only after the
+// notifications received before it have completed). Judged on the reply alone.
+func c03freshExec(c *vt.Ctx, conc int, company bool) {
+	ctrl := sched.New()
+	peer.Bubble(c, ctrl, func() {
+		var grown atomic.Bool
+		log := peer.NewLog()
+		h := peer.NewHandlers(log)
+		rig := peer.NewServerRig(c, ctrl, peer.ServerOpts{Concurrency: conc, Assigner: c03growingNamer{h, &grown}})
+		rig.H = h
+		what := fmt.Sprintf("rpc.serverInfo behind a running notification, Concurrency %d, other requests queued = %v", conc, company)
+		rig.Send(peer.Req("", "g", "n1"))
+		rig.Settle()
+		if log.Count("h.enter", "n1") != 1 {
+			c.Failf("%s: the notification has not started", what)
+		}
+		if company {
+			rig.Send(peer.Req("7", "i", "before"))
+		}
+		rig.Send(peer.Req("1", "rpc.serverInfo", ""))
+		if company {
+			rig.Send(peer.Req("8", "i", "after"))
+		}
+		rig.Settle()
+		if n := len(rig.Outbound()); n != 0 {
+			c.Failf("%s: %d replies although the notification has not returned", what, n)
+		}
+		grown.Store(true) // what the notification does before it returns
+		h.Release("n1")
+		rig.Settle()
+		found := false
+		for _, rec := range rig.Outbound() {
+			var rsp struct {
+				ID     json.RawMessage `json:"id"`
+				Result struct {
+					Methods []string `json:"methods"`
+				} `json:"result"`
+			}
+			if json.Unmarshal(rec, &rsp) != nil || string(rsp.ID) != "1" {
+				continue
+			}
+			found = true
+			has := false
+			for _, m := range rsp.Result.Methods {
+				has = has || m == "zz.registered"
+			}
+			if !has {
+				c.Failf("%s: the answer lists the methods %q - the state from before the notification returned (it registered \"zz.registered\" before returning, and the request arrived after it)", what, rsp.Result.Methods)
+			}
+		}
+		if !found {
+			c.Failf("%s: no reply to rpc.serverInfo among %q", what, rig.Outbound())
+		}
+		if _, ok := rig.Finish(); !ok {
+			c.Failf("%s: server did not exit after the peer closed", what)
+		}
+		c.Count("events", log.Len())
+		c.Count("handler_runs", int(h.Invocations()))
+		c.Count("fresh_info_runs", 1)
+	})
+	c.Eval(1)
+}
+
 func c03exec(c *vt.Ctx, r c03run) {
 	msgs, _ := c03build(r.script)
 	effConc := r.conc
@@ -414,12 +495,13 @@ func init() {
 			"x Concurrency {1,2,8} x every release order of the gates (<=4 gates; seeded orders beyond), oracle at every quiescent point; " +
 			"plus delay-bounded schedules (every single hook visit parked, pairs in thorough) and seeded perturbation; " +
 			"E4: scripts over {N,C,[N,C],[C,N],[N,N]} in which every notification handler waits in Server.Callback with its own context until the peer answers, or runs (deaf to its context) while the context ServerOptions.NewContext gave it is ended. " +
+			"I: rpc.serverInfo over an assigner whose Names() is slow (a running built-in never delays the requests that arrive after it), and rpc.serverInfo arriving behind a running notification whose effect (a method registered before it returns) must be in the answer, Concurrency {1,2,8}, alone and amid queued calls. " +
 			"distinct_nontrivial = distinct (script, concurrency, release order, delay set) executions that contained at least one notification followed by a later message",
 		Assumptions: []string{
 			"Go 1.26.8 standard library and testing/synctest (quiescence = all bubble goroutines durably blocked)",
 			"between hook points goroutines are scheduled by the Go runtime (schedules are recorded, not replayed bit for bit)",
 		},
-		Require: map[string]int64{"handler_runs": 100, "events": 1000, "notification_contexts_ended": 50, "callbacks_from_notifications_answered": 50},
+		Require: map[string]int64{"handler_runs": 100, "events": 1000, "notification_contexts_ended": 50, "callbacks_from_notifications_answered": 50, "slow_namer_runs": 2, "fresh_info_runs": 6},
 		Cases:   c03cases,
 	})
 }
@@ -588,6 +670,15 @@ func c03cases(e vt.Env, yield func(vt.Case) bool) {
 		id := fmt.Sprintf("I/slow-names/c%d", conc)
 		if !yield(vt.Case{ID: id, Run: func(c *vt.Ctx) { c03infoExec(c, conc); c.Distinct(id) }}) {
 			return
+		}
+	}
+	for _, conc := range []int{1, 2, 8} {
+		for _, company := range []bool{false, true} {
+			conc, company := conc, company
+			id := fmt.Sprintf("I/fresh/c%d/%v", conc, company)
+			if !yield(vt.Case{ID: id, Run: func(c *vt.Ctx) { c03freshExec(c, conc, company); c.Distinct(id) }}) {
+				return
+			}
 		}
 	}
 	// E3: seeded perturbation on longer random scripts.
